@@ -29,6 +29,7 @@ func init() {
 			{Name: "all-sequences-len<=2", N: fw.Const(c05ExhaustiveCount, c05ExhaustiveCount), Run: c05Exhaustive, Exhaustive: true},
 			{Name: "all-sequences-len=3", N: fw.Const(0, c05NumStarts*c05AlphabetSize*c05AlphabetSize*c05AlphabetSize), Run: c05Exhaustive3, Exhaustive: true},
 			{Name: "random-sequences", N: fw.Const(2000000, 20000000), Run: c05Random},
+			{Name: "grow-and-shrink", N: fw.Const(60000, 1200000), Run: c05Grow},
 		},
 	})
 }
@@ -622,6 +623,60 @@ func c05Random(c *fw.Ctx, i int) {
 			ops = append(ops, c05Op{kind: 3})
 		}
 	}
+	c05Run(c, s, ops, true)
+}
+
+// c05Grow: long histories in which the element list grows to many ids (its backing array is reallocated several times) and is then
+// deleted down again in arbitrary order, with replacements and wire round trips in between - list capacity and fill ratio, not just
+// the current content, are part of the state an implementation may act on.
+func c05Grow(c *fw.Ctx, i int) {
+	r := c.R
+	s := r.Intn(c05NumStarts)
+	var ops []c05Op
+	for round := r.Range(1, 2); round > 0; round-- {
+		k := r.Pick(5, 8, 9, 10, 14, 16, 17, 20, 33, r.Range(2, 40))
+		var ids []uint8
+		seen := map[uint8]bool{}
+		wide := r.Chance(1, 3) // ids beyond 14 / longer values force the two-byte form
+		for len(ids) < k {
+			id := uint8(r.Range(1, 14))
+			if wide || k > 14 {
+				id = uint8(r.Range(1, 255))
+			}
+			if !seen[id] {
+				seen[id] = true
+				ids = append(ids, id)
+			}
+		}
+		for _, id := range ids {
+			ops = append(ops, c05Op{kind: 0, id: id, val: gen.Value(r, r.Pick(1, 1, 2, 3, 4, 16, r.Range(1, 16)))})
+			if r.Chance(1, 12) {
+				ops = append(ops, c05Op{kind: r.Pick(2, 3)})
+			}
+		}
+		// delete in arbitrary order, down to a few or to none
+		keep := r.Pick(0, 0, 1, 2, 4, r.Intn(k))
+		if keep > k {
+			keep = k
+		}
+		order := append([]uint8{}, ids...)
+		for a := len(order) - 1; a > 0; a-- {
+			b := r.Intn(a + 1)
+			order[a], order[b] = order[b], order[a]
+		}
+		for _, id := range order[:len(order)-keep] {
+			ops = append(ops, c05Op{kind: 1, id: id})
+			switch r.Intn(10) {
+			case 0:
+				ops = append(ops, c05Op{kind: r.Pick(2, 3)})
+			case 1:
+				ops = append(ops, c05Op{kind: 0, id: order[len(order)-1], val: gen.Value(r, r.Range(1, 8))})
+			case 2:
+				ops = append(ops, c05Op{kind: 1, id: id}) // deleting again fails and changes nothing
+			}
+		}
+	}
+	c.Count("grow_and_shrink_histories", 1)
 	c05Run(c, s, ops, true)
 }
 
